@@ -177,14 +177,17 @@ FaultsOf(insV, c, d) ==
               {f \in ToolFaults(pr) : f.k <= NCalls(pr, f.t)}
               \cup (IF c.o THEN {[t |-> "unwritable", k |-> 0, how |-> "-"]} ELSE {}))
 
+Rank(c) == (CASE c.mode = "E" -> 0 [] c.mode = "S" -> 2 [] c.mode = "c" -> 4 [] c.mode = "link" -> 6) + (IF c.o THEN 1 ELSE 0)
+
 Init ==
   /\ ins \in UNION {[1..n -> KindSet] : n \in 1..MaxIn}
-  /\ pre \in {"old", "absent"}
   /\ cmd \in [D -> [mode : Modes, o : BOOLEAN]]
+  /\ ND = 2 => Rank(cmd[1]) <= Rank(cmd[2])       \* the drivers are interchangeable (out1 / out2 renamed)
   /\ dirfault \in {NoDF} \cup {[t |-> x, i |-> i] : x \in {"missing", "bad"}, i \in 1..Len(ins)}
-  /\ fault \in [D -> UNION {FaultsOf(ins, cmd[d], d) : d \in D}]
-  /\ \A d \in D : fault[d] \in FaultsOf(ins, cmd[d], d)
-  /\ Cardinality({d \in D : fault[d] # NoF}) + (IF dirfault # NoDF THEN 1 ELSE 0) <= 1      \* a single fault
+  /\ \E f1 \in (IF dirfault = NoDF THEN FaultsOf(ins, cmd[1], 1) ELSE {NoF}) :          \* a single fault
+       IF ND = 1 THEN fault = <<f1>>
+       ELSE \E f2 \in (IF dirfault = NoDF /\ f1 = NoF THEN FaultsOf(ins, cmd[2], 2) ELSE {NoF}) : fault = <<f1, f2>>
+  /\ pre \in {"old", "absent"}
   /\ LET s == InitState(ins, pre, dirfault, cmd, fault) IN prog = s.prog /\ fs = s.fs
   /\ Rest
 
